@@ -69,6 +69,7 @@ partial def loop (hin : IO.FS.Stream) (hout : IO.FS.Stream) : IO Unit := do
   let line ← hin.getLine
   if line.isEmpty then return ()
   hout.putStrLn (respond line)
+  hout.flush
   loop hin hout
 
 def main : IO Unit := do
